@@ -12,6 +12,9 @@ Monitors:
   (2) system-call level, real process under strace: every openat/write/fsync/chmod/rename/unlink issued
       by the writer after its marker is failed with an errno, short-written (retval) or hit by SIGKILL;
       same content / leftover oracle on the real file system;
+  (1b) content-caused failures (a lone surrogate that cannot be encoded) for the text / JSON / compaction writers, and the
+      structural oracle "content changed => the destination is a new inode" on every in-process run (an in-place
+      modification cannot be atomic for a reader), incl. a compaction whose old content is a byte prefix of the new one;
   (3) concurrent readers (threads + processes) loop open/read while a writer alternates two contents of
       different lengths: every read must be one complete content.
 """
@@ -211,10 +214,15 @@ def run_caller(caller, d, size, ch):
         from clematis.io.log import rewrite_jsonl
         os.environ["CLEMATIS_LOG_DIR"] = d
         rewrite_jsonl("t1.jsonl", [{"i": i, "b": ch * 10} for i in range(max(1, size // 24))])
+    elif caller == "rewrite-extend":
+        # compaction of a log that grew: the previous content is a byte prefix of the new one
+        from clematis.io.log import rewrite_jsonl
+        os.environ["CLEMATIS_LOG_DIR"] = d
+        rewrite_jsonl("t1.jsonl", [{"i": i, "b": "x" * 10} for i in range(max(1, size // 24) + (40 if ch == "n" else 0))])
 
 
 DESTS = {"bytes": ["out.bin"], "text": ["out.txt"], "json": ["out.json"], "snapshot": ["state_A.json", "state_A.json.meta"],
-         "lines": ["snapshot-e1.full.json", "snapshot-e1.full.json.meta"], "rewrite": ["t1.jsonl"]}
+         "lines": ["snapshot-e1.full.json", "snapshot-e1.full.json.meta"], "rewrite": ["t1.jsonl"], "rewrite-extend": ["t1.jsonl"]}
 
 
 def snapshot_dir(d):
@@ -244,6 +252,7 @@ def inproc_case(caller, size, old, at, kind, err, times, ref, sess: Session, ste
         if old:
             run_caller(caller, d, size, "o")
         before = snapshot_dir(d)
+        ino_before = {n: os.stat(os.path.join(d, n)).st_ino for n in before}
         plan = Plan(at, kind, ERRNOS.get(err) if err else None, times)
         outcome = "ok"
         old_env = os.environ.get("CLEMATIS_LOG_DIR")
@@ -262,6 +271,13 @@ def inproc_case(caller, size, old, at, kind, err, times, ref, sess: Session, ste
             else:
                 os.environ["CLEMATIS_LOG_DIR"] = old_env
         after = snapshot_dir(d)
+        # an atomic replacement puts a NEW file under the name: content changed with the inode kept = the destination
+        # was modified in place (the temp file and the old destination exist at the same time, so their inodes differ)
+        for n_ in DESTS[caller][:1]:
+            if n_ in before and n_ in after and before[n_] != after[n_]:
+                sess.count("replacements_with_inode_checked")
+                if os.stat(os.path.join(d, n_)).st_ino == ino_before[n_]:
+                    sess.violation("destination-modified-in-place:content-changed-inode-kept", case, {"dest": n_, "outcome": outcome})
         sess.evaluations += 1
         sess.count("inprocess_fault_runs")
         if at is not None and plan.fired:
@@ -270,7 +286,7 @@ def inproc_case(caller, size, old, at, kind, err, times, ref, sess: Session, ste
             sess.count("inprocess_faults_fired")
             sess.count("fault_fired:" + kind)
             sess.nontrivial.add(chash(case))
-        if old and plan.probes and not all(plan.probes) and caller in ("bytes", "text", "json", "rewrite"):
+        if old and plan.probes and not all(plan.probes) and caller in ("bytes", "text", "json", "rewrite", "rewrite-extend"):
             sess.violation("destination-missing-during-replace-retries", case, {"probes": plan.probes[:8], "outcome": outcome})
         dests = DESTS[caller]
         for i, name in enumerate(dests):
@@ -320,6 +336,55 @@ def inproc_enumerate(caller, size, old, tier, sess: Session, rng):
     sess.count("enumerated_step_x_fault_grids")
 
 
+# ------------------------------------------------------------------------------ content-caused failures
+def poison_case(caller, size, old, sess: Session):
+    """The write fails because of its *content* (a lone surrogate cannot be encoded), at whatever point the implementation
+    encodes: the destination keeps the previous content and no temporary file stays behind."""
+    import clematis.io.atomic as A
+
+    bad = "ok " * (size // 3) + "\ud83d" + " tail"
+    case = {"caller": caller, "size": size, "old": old, "kind": "unencodable-content"}
+    with tmpdir("c08p_") as d:
+        old_env = os.environ.get("CLEMATIS_LOG_DIR")
+        os.environ["CLEMATIS_LOG_DIR"] = d
+        name = {"text": "out.txt", "json": "out.json", "rewrite": "t1.jsonl"}[caller]
+        dest = os.path.join(d, name)
+        if old:
+            with open(dest, "wb") as f:
+                f.write(b'{"previous": "content"}\n')
+        before = snapshot_dir(d)
+        outcome = "ok"
+        try:
+            if caller == "text":
+                A.atomic_write_text(dest, bad)
+            elif caller == "json":
+                A.atomic_write_json(dest, {"k": bad})
+            else:
+                from clematis.io.log import rewrite_jsonl
+                rewrite_jsonl(name, [{"i": 0, "b": "fine"}, {"i": 1, "b": bad}])
+        except Exception as ex:
+            outcome = "raised:" + type(ex).__name__
+        finally:
+            if old_env is None:
+                os.environ.pop("CLEMATIS_LOG_DIR", None)
+            else:
+                os.environ["CLEMATIS_LOG_DIR"] = old_env
+        after = snapshot_dir(d)
+        sess.evaluations += 1
+        sess.count("content_failure_runs")
+        sess.seen("content_failure_outcomes", (caller, outcome))
+        if outcome != "ok":
+            sess.nontrivial.add(chash(case))
+            extra = [n for n in after if n != name]
+            if extra:
+                sess.violation("temp-file-left-after-failed-write", case, {"left": extra, "outcome": outcome})
+            if after.get(name) != before.get(name):
+                sess.violation("partial-or-foreign-content-in-destination", case, {"outcome": outcome, "dest_before": before.get(name), "dest_after": after.get(name)})
+        else:
+            if [n for n in after if n != name]:
+                sess.violation("temp-file-left-after-successful-write", case, {"left": [n for n in after if n != name]})
+
+
 # ------------------------------------------------------------------------------ strace level
 SYSC = ["openat", "write", "fsync", "fchmod", "chmod", "rename", "renameat", "renameat2", "unlink", "unlinkat"]
 
@@ -346,7 +411,7 @@ def strace_run(caller, dest, size, ch, inject=None, timeout=120):
 
 
 def strace_cases(caller, size, tier, sess: Session, rng):
-    fname = {"bytes": "out.bin", "text": "out.txt", "json": "out.json", "rewrite": "t1.jsonl"}[caller]
+    fname = {"bytes": "out.bin", "text": "out.txt", "json": "out.json", "rewrite": "t1.jsonl", "rewrite-extend": "t1.jsonl"}[caller]
     with tmpdir("c08s_") as d0:
         # reference contents
         rd = os.path.join(d0, "ref")
@@ -521,6 +586,11 @@ def _work(args):
                 sess.assume("strace not installed: system-call level part skipped")
         elif what == "readers":
             readers_case(payload, sess, seed)
+        elif what == "poison":
+            for caller in ("text", "json", "rewrite"):
+                for size in ((0, 30, 300000) if tier == "quick" else (0, 1, 30, 70000, 300000, 1048576)):
+                    for old in (True, False):
+                        poison_case(caller, size, old, sess)
     except Exception as ex:
         import traceback
         sess.inconclusive_because(f"harness error {type(ex).__name__}: {ex} @ {traceback.format_exc()[-600:]}")
@@ -534,16 +604,17 @@ def main(tier: str, seed: int):
     q = tier == "quick"
     jobs = []
     sizes = [0, 10, 70000] if q else [0, 1, 4096, 70000, 1048576]
-    for caller in ["bytes", "text", "json", "snapshot", "lines", "rewrite"]:
+    for caller in ["bytes", "text", "json", "snapshot", "lines", "rewrite", "rewrite-extend"]:
         for size in (sizes if caller in ("bytes", "snapshot") or not q else [10]):
             for old in (True, False):
                 if q and not old and caller not in ("bytes", "snapshot"):
                     continue
                 jobs.append(("inproc", tier, seed, (caller, size, old)))
-    for caller in (["bytes", "rewrite"] if q else ["bytes", "text", "json", "rewrite"]):
+    for caller in (["bytes", "rewrite", "rewrite-extend"] if q else ["bytes", "text", "json", "rewrite", "rewrite-extend"]):
         for size in ([70000] if q else [10, 70000, 300000]):
             jobs.append(("strace", tier, seed, (caller, size)))
     jobs += [("readers", tier, seed, 300 if q else 20000)] * (2 if q else 4)
+    jobs.append(("poison", tier, seed, 0))
     for ex in par.pmap(_work, jobs):
         sess.merge(ex)
     sess.exhaustive = True
@@ -553,6 +624,8 @@ def main(tier: str, seed: int):
     sess.require("fault_fired:kill", 30)
     sess.require("fault_fired:short", 5)
     sess.require("concurrent_reads_classified", 1000)
+    sess.require("content_failure_runs", 12)
+    sess.require("replacements_with_inode_checked", 50)
     if strace_available():
         sess.require("strace_fault_runs", 20)
     sess.finish()
@@ -565,6 +638,8 @@ def replay(body, tier, seed):
     rng = random.Random(0)
     if case.get("level") == "syscall":
         strace_cases(case["caller"], case["size"], "thorough", sess, rng)
+    elif case.get("kind") == "unencodable-content":
+        poison_case(case["caller"], case["size"], case["old"], sess)
     elif "caller" in case:
         ref = reference(case["caller"], case["size"], case["old"])
         inproc_case(case["caller"], case["size"], case["old"], case["at"], case["kind"], case.get("errno"), case.get("times", 1), ref, sess)
